@@ -7,13 +7,48 @@
 
 #include <primitiv/core/mixins/nonmovable.h>
 
+#ifdef PRIMITIV_VERIF_HOOKS
+// Verification hooks (off unless PRIMITIV_VERIF_HOOKS is defined): a scheduling
+// point before every shared-memory access of the spinlocks, so that a test
+// scheduler can run the real code under chosen thread interleavings.
+namespace primitiv {
+namespace verif {
+typedef void (*SchedHook)(const void *obj, int point);
+inline SchedHook &sched_hook() { static SchedHook hook = nullptr; return hook; }
+inline void sched_point(const void *obj, int point) {
+  if (sched_hook()) sched_hook()(obj, point);
+}
+// std::atomic_flag with a scheduling point before each operation.
+class HookedFlag {
+  std::atomic_flag flag_ = ATOMIC_FLAG_INIT;
+public:
+  bool test_and_set(std::memory_order order) {
+    sched_point(this, 1);
+    return flag_.test_and_set(order);
+  }
+  void clear(std::memory_order order) {
+    sched_point(this, 2);
+    flag_.clear(order);
+  }
+};
+}  // namespace verif
+}  // namespace primitiv
+#define PRIMITIV_VERIF_SCHED(point) ::primitiv::verif::sched_point(&ready_, point)
+#else
+#define PRIMITIV_VERIF_SCHED(point)
+#endif
+
 namespace primitiv {
 
 /**
  * Spinlock object which can be used with std::mutex style usage.
  */
 class Spinlock : mixins::Nonmovable<Spinlock> {
+#ifdef PRIMITIV_VERIF_HOOKS
+  verif::HookedFlag ready_;
+#else
   std::atomic_flag ready_ = ATOMIC_FLAG_INIT;
+#endif
 
 public:
   /**
@@ -39,7 +74,11 @@ public:
  * recursively by the same thread.
  */
 class RecursiveSpinlock : mixins::Nonmovable<RecursiveSpinlock> {
+#ifdef PRIMITIV_VERIF_HOOKS
+  verif::HookedFlag ready_;
+#else
   std::atomic_flag ready_ = ATOMIC_FLAG_INIT;
+#endif
   std::atomic<std::thread::id> locked_thread_id_ { std::thread::id() };
   std::uint32_t lock_count_ = 0;
 
@@ -52,12 +91,15 @@ public:
   bool try_lock() {
     const std::thread::id this_thread_id = std::this_thread::get_id();
     if (ready_.test_and_set(std::memory_order_acquire)) {
+      PRIMITIV_VERIF_SCHED(3);
       if (locked_thread_id_.load(std::memory_order_relaxed) != this_thread_id) {
         return false;
       }
     } else {
+      PRIMITIV_VERIF_SCHED(4);
       locked_thread_id_.store(this_thread_id, std::memory_order_relaxed);
     }
+    PRIMITIV_VERIF_SCHED(5);
     ++lock_count_;
     return true;
   }
@@ -71,11 +113,14 @@ public:
    * Releases the privilege.
    */
   void unlock() {
+    PRIMITIV_VERIF_SCHED(6);
     if (locked_thread_id_.load(std::memory_order_relaxed)
         != std::this_thread::get_id()) {
       return;
     }
+    PRIMITIV_VERIF_SCHED(7);
     if (--lock_count_ == 0) {
+      PRIMITIV_VERIF_SCHED(8);
       locked_thread_id_.store(std::thread::id(), std::memory_order_relaxed);
       ready_.clear(std::memory_order_release);
     }
